@@ -196,10 +196,51 @@ def _find(tree, qual):
     return target if isinstance(target, ast.FunctionDef) else None
 
 
+def rename_params(src_text, qual, suffix='_rp'):
+    """Rename the parameters of a PRIVATE function / method (name starts with one underscore) in its definition, its body and
+    the keyword arguments of its call sites in the same module.  Public functions keep their parameter names (API)."""
+    tree = ast.parse(src_text)
+    target = _find(tree, qual)
+    if target is None:
+        return None
+    nm = target.name
+    if not nm.startswith('_') or nm.startswith('__'):
+        return None
+    if any(isinstance(d, ast.Name) and d.id in ('property', 'staticmethod', 'classmethod') or isinstance(d, ast.Attribute)
+           for d in target.decorator_list):
+        return None
+    a = target.args
+    if a.vararg or a.kwarg:
+        return None
+    allp = a.posonlyargs + a.args + a.kwonlyargs
+    is_method = '.' in qual
+    ps = [x for x in allp[1:]] if is_method else list(allp)
+    if not ps:
+        return None
+    names = {x.arg: x.arg + suffix for x in ps}
+    for x in ps:
+        x.arg = names[x.arg]
+    t = _Rename(names)
+    target.body = [t.visit(s_) for s_ in target.body]
+    a.defaults = [t.visit(d) for d in a.defaults]
+    for n in ast.walk(tree):
+        if isinstance(n, ast.Call):
+            f = n.func
+            callee = f.id if isinstance(f, ast.Name) else (f.attr if isinstance(f, ast.Attribute) else None)
+            if callee == nm:
+                for k in n.keywords:
+                    if k.arg in names:
+                        k.arg = names[k.arg]
+    ast.fix_missing_locations(tree)
+    return ast.unparse(tree)
+
+
 def transform(src_text, qual, kind):
     """kind in {'rename', 'flipcmp', 'swapif'}; returns new module text or None when nothing changes."""
     if kind == 'rename':
         return rename_locals(src_text, qual)
+    if kind == 'renameparams':
+        return rename_params(src_text, qual)
     tree = ast.parse(src_text)
     target = _find(tree, qual)
     if target is None:
